@@ -16,6 +16,7 @@ import (
 
 type boolFormula struct {
 	atoms []string
+	exprs map[string]ast.Expr // atom -> one expression it stands for (X != Y is the negated atom "X == Y")
 	eval  func(assign map[string]bool) bool
 }
 
@@ -30,6 +31,7 @@ func isBoolType(info *types.Info, e ast.Expr) bool {
 
 func boolTable(info *types.Info, e ast.Expr) boolFormula {
 	set := map[string]bool{}
+	exprs := map[string]ast.Expr{}
 	var build func(e ast.Expr) func(map[string]bool) bool
 	build = func(e ast.Expr) func(map[string]bool) bool {
 		e = unparen(e)
@@ -55,6 +57,14 @@ func boolTable(info *types.Info, e ast.Expr) boolFormula {
 					}
 					return func(a map[string]bool) bool { return f(a) != g(a) }
 				}
+				// comparison of non-booleans: one atom "X == Y" for both spellings
+				name := canon(info, x.X) + " == " + canon(info, x.Y)
+				set[name] = true
+				exprs[name] = x
+				if x.Op == token.EQL {
+					return func(a map[string]bool) bool { return a[name] }
+				}
+				return func(a map[string]bool) bool { return !a[name] }
 			}
 		case *ast.Ident:
 			if b, ok := constBool(info, x); ok {
@@ -63,6 +73,7 @@ func boolTable(info *types.Info, e ast.Expr) boolFormula {
 		}
 		name := canon(info, e)
 		set[name] = true
+		exprs[name] = e
 		return func(a map[string]bool) bool { return a[name] }
 	}
 	f := build(e)
@@ -71,7 +82,7 @@ func boolTable(info *types.Info, e ast.Expr) boolFormula {
 		atoms = append(atoms, a)
 	}
 	sort.Strings(atoms)
-	return boolFormula{atoms: atoms, eval: f}
+	return boolFormula{atoms: atoms, exprs: exprs, eval: f}
 }
 
 // forAll evaluates the formula for every assignment of its atoms that agrees with fixed and reports
